@@ -97,7 +97,7 @@ theorem idx_step_trainer_np (h : WF g rank) (inv : IdxInv g A vis (I, c)) {w : W
       intro γ hk ho t ht hg hTt heq
       have htw : t = w := eq_of_nodup_map (fun w : Worker => w.uid) (l := g.workers) h.nodup ht hw heq
       subst htw hk
-      rw [hg, hgid] at h1; cases h1
+      rw [← hg, hgid] at h1; cases h1
     · exact ⟨w, hwk, by simp, rfl⟩
     · exact Or.inl ⟨w, hw, rfl, hT, by simp, rfl⟩
   · intro w' hw' hv'
@@ -122,6 +122,272 @@ theorem idx_step_trainer_np (h : WF g rank) (inv : IdxInv g A vis (I, c)) {w : W
     rcases hcase w' hw' hv' with hv' | rfl
     · exact hkeep _ _ (inv.c_getter w' hw' hv' htr' hne i hi)
     · rw [htr] at htr'; cases htr'
+
+/-- **trainer of a persistent group** -/
+theorem idx_step_trainer_p (h : WF g rank) (inv : IdxInv g A vis (I, c)) {w : Worker} (hw : w ∈ g.workers)
+    (hv : w.uid ∉ vis) (hT : g.isTrainer w = true) (hP : persistentW A w = true) :
+    ∃ ic', idxRun (I, c) (prog g A w) = some ic' ∧ IdxInv g A (vis ++ [w.uid]) ic' := by
+  have hu := fresh_uid inv hv
+  have hd := fresh_dumper inv hv
+  have hwk := worker?_of_mem h.nodup hw
+  have htr : g.trained w.uid = true := by simp only [isTrainer, Bool.and_eq_true] at hT; exact hT.2
+  have huniq : ∀ t ∈ g.workers, t.gid = w.gid → g.isTrainer t = true → t = w :=
+    fun t ht hg hTt => trainer_unique h ht hw hg hTt hT
+  have hgid : aget (Key.gid w.gid) I = none ∨ aget (Key.gid w.gid) I = some (loaderObj w.gid) := by
+    cases hg : aget (Key.gid w.gid) I with
+    | none => exact Or.inl rfl
+    | some o =>
+      rcases inv.sound _ _ hg with ⟨t, ht, hgt, hTt, htv, _⟩ | ⟨rfl, _⟩
+      · have := huniq t ht hgt hTt; subst this; exact absurd htv hv
+      · exact Or.inr rfl
+  have hl : aget (Key.loader w.gid) I = none := by
+    cases hg : aget (Key.loader w.gid) I with
+    | none => rfl
+    | some o =>
+      obtain ⟨_, t, ht, hgt, htv, hTt, _⟩ := inv.sound _ _ hg
+      have := huniq t ht hgt hTt; subst this; exact absurd htv hv
+  have hc := fun hcn => fresh_committer inv hcn
+  refine ⟨_, idx_trainer_p hT hP inv.keys hu hgid hl hd hc (commOK_of inv), ?_⟩
+  -- the base: the index without the group alias
+  generalize hB : adel (Key.gid w.gid) I = B
+  have hBsub : ∀ x ∈ B, x ∈ I := by intro x hx; rw [← hB] at hx; exact mem_adel hx
+  have hBget : ∀ k, k ≠ Key.gid w.gid → aget k B = aget k I := by
+    intro k hk; rw [← hB]; exact aget_adel_ne (Ne.symm hk) I
+  have hBgid : aget (Key.gid w.gid) B = none := by rw [← hB]; exact aget_adel_self inv.keys
+  have hBkeys : (B.map (·.1)).Nodup := by
+    rw [← hB]; exact List.Nodup.sublist (adel_keys_sublist _ _) inv.keys
+  generalize hC : (if c = none then [(Key.committer, committerObj)] else []) = Copt
+  have hCget : ∀ k o, aget k Copt = some o → k = Key.committer ∧ o = committerObj ∧ c = none := by
+    intro k o hko
+    rw [← hC] at hko
+    split at hko
+    · rename_i hcn
+      simp only [aget_cons, aget_nil] at hko
+      split at hko
+      · cases hko; subst_vars; exact ⟨rfl, rfl, rfl⟩
+      · cases hko
+    · cases hko
+  have hCnone : ∀ k, k ≠ Key.committer → aget k Copt = none := by
+    intro k hk
+    cases hko : aget k Copt with
+    | none => rfl
+    | some o => exact absurd (hCget k o hko).1 hk
+  -- lookups in the result
+  have hget : ∀ k o, aget k (B ++ Copt ++ [(Key.dumper w.uid, dumperObj w.uid), (Key.loader w.gid, loaderObj w.gid),
+        (Key.uid w.uid, functorObj g A w), (Key.gid w.gid, functorObj g A w)]) = some o →
+      (k ≠ Key.gid w.gid ∧ aget k I = some o) ∨ (k = Key.committer ∧ o = committerObj ∧ c = none) ∨
+      (k = Key.dumper w.uid ∧ o = dumperObj w.uid) ∨ (k = Key.loader w.gid ∧ o = loaderObj w.gid) ∨
+      (k = Key.uid w.uid ∧ o = functorObj g A w) ∨ (k = Key.gid w.gid ∧ o = functorObj g A w) := by
+    intro k o hko
+    rw [aget_append, aget_append] at hko
+    cases h1 : aget k B with
+    | some o1 =>
+      simp only [h1] at hko; cases hko
+      have hk : k ≠ Key.gid w.gid := by rintro rfl; rw [hBgid] at h1; cases h1
+      exact Or.inl ⟨hk, by rw [← hBget k hk]; exact h1⟩
+    | none =>
+      simp only [h1] at hko
+      cases h2 : aget k Copt with
+      | some o2 => simp only [h2] at hko; cases hko; exact Or.inr (Or.inl (hCget k o h2))
+      | none =>
+        simp only [h2, aget_cons, aget_nil] at hko
+        by_cases he1 : Key.dumper w.uid = k
+        · simp only [he1, if_true, Option.some.injEq] at hko
+          exact Or.inr (Or.inr (Or.inl ⟨he1.symm, hko.symm⟩))
+        · by_cases he2 : Key.loader w.gid = k
+          · simp only [he1, he2, if_true, if_false, Option.some.injEq] at hko
+            exact Or.inr (Or.inr (Or.inr (Or.inl ⟨he2.symm, hko.symm⟩)))
+          · by_cases he3 : Key.uid w.uid = k
+            · simp only [he1, he2, he3, if_true, if_false, Option.some.injEq] at hko
+              exact Or.inr (Or.inr (Or.inr (Or.inr (Or.inl ⟨he3.symm, hko.symm⟩))))
+            · by_cases he4 : Key.gid w.gid = k
+              · simp only [he1, he2, he3, he4, if_true, if_false, Option.some.injEq] at hko
+                exact Or.inr (Or.inr (Or.inr (Or.inr (Or.inr ⟨he4.symm, hko.symm⟩))))
+              · simp [he1, he2, he3, he4] at hko
+  have hkeep : ∀ k o, k ≠ Key.gid w.gid → aget k I = some o →
+      aget k (B ++ Copt ++ [(Key.dumper w.uid, dumperObj w.uid), (Key.loader w.gid, loaderObj w.gid),
+        (Key.uid w.uid, functorObj g A w), (Key.gid w.gid, functorObj g A w)]) = some o := by
+    intro k o hk hko
+    exact aget_append_left _ (aget_append_left _ (by rw [hBget k hk]; exact hko))
+  have hBC : ∀ k, k ≠ Key.committer → aget k B = none → aget k (B ++ Copt) = none :=
+    fun k hk hb => aget_fresh_append hb (hCnone k hk)
+  have hnewD : aget (Key.dumper w.uid) (B ++ Copt ++ [(Key.dumper w.uid, dumperObj w.uid),
+      (Key.loader w.gid, loaderObj w.gid), (Key.uid w.uid, functorObj g A w), (Key.gid w.gid, functorObj g A w)])
+      = some (dumperObj w.uid) := by
+    rw [aget_append_right _ (hBC _ (by simp) (by rw [hBget _ (by simp)]; exact hd))]; simp [aget]
+  have hnewL : aget (Key.loader w.gid) (B ++ Copt ++ [(Key.dumper w.uid, dumperObj w.uid),
+      (Key.loader w.gid, loaderObj w.gid), (Key.uid w.uid, functorObj g A w), (Key.gid w.gid, functorObj g A w)])
+      = some (loaderObj w.gid) := by
+    rw [aget_append_right _ (hBC _ (by simp) (by rw [hBget _ (by simp)]; exact hl))]; simp [aget]
+  have hnewU : aget (Key.uid w.uid) (B ++ Copt ++ [(Key.dumper w.uid, dumperObj w.uid),
+      (Key.loader w.gid, loaderObj w.gid), (Key.uid w.uid, functorObj g A w), (Key.gid w.gid, functorObj g A w)])
+      = some (functorObj g A w) := by
+    rw [aget_append_right _ (hBC _ (by simp) (by rw [hBget _ (by simp)]; exact hu))]; simp [aget]
+  have hnewG : aget (Key.gid w.gid) (B ++ Copt ++ [(Key.dumper w.uid, dumperObj w.uid),
+      (Key.loader w.gid, loaderObj w.gid), (Key.uid w.uid, functorObj g A w), (Key.gid w.gid, functorObj g A w)])
+      = some (functorObj g A w) := by
+    rw [aget_append_right _ (hBC _ (by simp) hBgid)]; simp [aget]
+  have hcase : ∀ w' ∈ g.workers, w'.uid ∈ vis ++ [w.uid] → w'.uid ∈ vis ∨ w' = w := by
+    intro w' hw' hv'
+    rcases List.mem_append.mp hv' with hv' | hv'
+    · exact Or.inl hv'
+    · simp only [List.mem_singleton] at hv'
+      exact Or.inr (eq_of_nodup_map (fun w : Worker => w.uid) (l := g.workers) h.nodup hw' hw hv')
+  have hPTw : ∃ t ∈ g.workers, t.uid ∈ vis ++ [w.uid] ∧ g.isTrainer t = true ∧ persistentW A t = true :=
+    ⟨w, hw, by simp, hT, hP⟩
+  refine ⟨?_, ?_, Or.inr ⟨rfl, hPTw⟩, ?_, ?_, ?_, ?_, ?_, ?_⟩
+  · -- keys
+    show ((B ++ Copt ++ [(Key.dumper w.uid, dumperObj w.uid), (Key.loader w.gid, loaderObj w.gid),
+        (Key.uid w.uid, functorObj g A w), (Key.gid w.gid, functorObj g A w)]).map (·.1)).Nodup
+    apply keys_nodup_append _ (by simp)
+    · intro k hk
+      simp only [List.map_cons, List.map_nil, List.mem_cons, List.mem_nil_iff, or_false] at hk
+      rcases hk with rfl | rfl | rfl | rfl
+      · exact hBC _ (by simp) (by rw [hBget _ (by simp)]; exact hd)
+      · exact hBC _ (by simp) (by rw [hBget _ (by simp)]; exact hl)
+      · exact hBC _ (by simp) (by rw [hBget _ (by simp)]; exact hu)
+      · exact hBC _ (by simp) hBgid
+    · apply keys_nodup_append hBkeys
+      · rw [← hC]; split <;> simp
+      · intro k hk
+        rw [← hC] at hk
+        split at hk
+        · rename_i hcn
+          simp only [List.map_cons, List.map_nil, List.mem_singleton] at hk
+          subst hk
+          rw [hBget _ (by simp)]; exact hc hcn
+        · cases hk
+  · -- contiguity
+    show Contig ((B ++ Copt ++ [(Key.dumper w.uid, dumperObj w.uid), (Key.loader w.gid, loaderObj w.gid),
+        (Key.uid w.uid, functorObj g A w), (Key.gid w.gid, functorObj g A w)]).map (·.2.id))
+    have hBcontig : Contig (B.map (·.2.id)) := by
+      rw [← hB]
+      obtain ⟨i, hi⟩ := adel_map_eraseIdx (Key.gid w.gid) (fun x : Key × Obj => x.2.id) I
+      rw [hi]; exact inv.contig.sublist_erase i
+    have hshape : (B ++ Copt ++ [(Key.dumper w.uid, dumperObj w.uid), (Key.loader w.gid, loaderObj w.gid),
+        (Key.uid w.uid, functorObj g A w), (Key.gid w.gid, functorObj g A w)]).map (·.2.id)
+        = (B.map (·.2.id) ++ Copt.map (·.2.id)) ++ [Key.dumper w.uid, Key.loader w.gid, Key.uid w.uid]
+            ++ [Key.uid w.uid] := by
+      simp [functorObj]
+    rw [hshape]
+    have hidsC : ∀ x, x ∈ B.map (·.2.id) ++ Copt.map (·.2.id) → x ∈ B.map (·.2.id) ∨ x = Key.committer := by
+      intro x hx
+      rcases List.mem_append.mp hx with hx | hx
+      · exact Or.inl hx
+      · right
+        rw [← hC] at hx
+        split at hx
+        · simpa using hx
+        · cases hx
+    have hstep1 : Contig (B.map (·.2.id) ++ Copt.map (·.2.id)) := by
+      rw [← hC]
+      split
+      · rename_i hcn
+        simp only [List.map_cons, List.map_nil]
+        exact hBcontig.append_fresh (Or.inl (id_not_committer inv hBsub hcn))
+      · simpa using hBcontig
+    have : (B.map (·.2.id) ++ Copt.map (·.2.id)) ++ [Key.dumper w.uid, Key.loader w.gid, Key.uid w.uid] ++ [Key.uid w.uid]
+        = ((B.map (·.2.id) ++ Copt.map (·.2.id)) ++ [Key.dumper w.uid, Key.loader w.gid]) ++ [Key.uid w.uid]
+            ++ [Key.uid w.uid] := by simp
+    rw [this]
+    apply Contig.append_dup
+    apply Contig.append_fresh
+    · apply hstep1.append_list _ (by simp)
+      intro x hx hmem
+      simp only [List.mem_cons, List.mem_nil_iff, or_false] at hx
+      rcases hidsC _ hmem with hmem | hmem
+      · rcases hx with rfl | rfl
+        · exact id_not_dumper inv hBsub hv hmem
+        · rcases id_loader_cases inv hBsub hmem with ⟨o, hm⟩ | hm
+          · have := aget_of_mem_nodup inv.keys (hBsub _ hm)
+            rw [hl] at this; cases this
+          · have := aget_of_mem_nodup hBkeys hm
+            rw [hBgid] at this; cases this
+      · rcases hx with rfl | rfl <;> cases hmem
+    · left
+      intro hmem
+      simp only [List.mem_append, List.mem_cons, List.mem_nil_iff, or_false] at hmem
+      rcases hmem with hmem | hmem
+      · rcases hidsC _ (List.mem_append.mpr hmem) with hmem | hmem
+        · exact id_not_uid inv hBsub hv hmem
+        · cases hmem
+      · rcases hmem with hmem | hmem <;> cases hmem
+  · -- soundness
+    intro k o hko
+    rcases hget k o hko with ⟨hk, h1⟩ | ⟨rfl, rfl, _⟩ | ⟨rfl, rfl⟩ | ⟨rfl, rfl⟩ | ⟨rfl, rfl⟩ | ⟨rfl, rfl⟩
+    · apply (inv.sound k o h1).mono
+      intro γ hkγ _ t ht hg hTt heq
+      have htw : t = w := eq_of_nodup_map (fun w : Worker => w.uid) (l := g.workers) h.nodup ht hw heq
+      subst htw hkγ
+      exact hk (by rw [hg])
+    · exact ⟨rfl, hPTw⟩
+    · exact ⟨rfl, w, hwk, by simp, hT, hP⟩
+    · exact ⟨rfl, w, hw, rfl, by simp, hT, hP⟩
+    · exact ⟨w, hwk, by simp, rfl⟩
+    · exact Or.inl ⟨w, hw, rfl, hT, by simp, rfl⟩
+  · intro w' hw' hv'
+    rcases hcase w' hw' hv' with hv' | rfl
+    · exact hkeep _ _ (by simp) (inv.c_uid w' hw' hv')
+    · exact hnewU
+  · intro t ht htv hTt
+    rcases hcase t ht htv with htv' | rfl
+    · have hne : Key.gid t.gid ≠ Key.gid w.gid := by
+        intro heq
+        have := huniq t ht (Key.gid.inj heq) hTt
+        subst this; exact hv htv'
+      exact hkeep _ _ hne (inv.c_gidT t ht htv' hTt)
+    · exact hnewG
+  · intro w' hw' hv' hP' hno
+    have hgne : w'.gid ≠ w.gid := fun heq => hno w hw heq.symm hT (by simp)
+    rcases hcase w' hw' hv' with hv' | rfl
+    · exact hkeep _ _ (fun heq => hgne (Key.gid.inj heq)) (inv.c_gidL w' hw' hv' hP'
+        (fun t ht hg hTt hm => hno t ht hg hTt (List.mem_append_left _ hm)))
+    · exact absurd rfl hgne
+  · intro t ht htv hTt hPt
+    rcases hcase t ht htv with htv | rfl
+    · obtain ⟨h1, h2, h3⟩ := inv.c_pt t ht htv hTt hPt
+      exact ⟨hkeep _ _ (by simp) h1, hkeep _ _ (by simp) h2, hkeep _ _ (by simp) h3⟩
+    · refine ⟨hnewL, hnewD, ?_⟩
+      rcases inv.comm with ⟨hcn, _⟩ | ⟨_, t', ht', htv', hTt', hPt'⟩
+      · simp only at hcn
+        apply aget_append_left
+        rw [aget_append_right _ (by rw [hBget _ (by simp)]; exact hc hcn), ← hC]
+        simp [hcn, aget]
+      · exact hkeep _ _ (by simp) (inv.c_pt t' ht' htv' hTt' hPt').2.2
+  · intro w' hw' hv' htr' hne i hi
+    rcases hcase w' hw' hv' with hv' | rfl
+    · exact hkeep _ _ (by simp) (inv.c_getter w' hw' hv' htr' hne i hi)
+    · rw [htr] at htr'; cases htr'
+
+/-- **the index after the whole traversal**, any visit order -/
+theorem idx_all (h : WF g rank) (order : List Uid) (hnd : order.Nodup) (hmem : ∀ n ∈ order, n ∈ g.uids) :
+    ∃ ic, idxRun ([], none) (allProg g A order) = some ic ∧ IdxInv g A order ic := by
+  revert hnd hmem
+  refine snoc_induction (P := fun order => order.Nodup → (∀ n ∈ order, n ∈ g.uids) →
+    ∃ ic, idxRun ([], none) (allProg g A order) = some ic ∧ IdxInv g A order ic) ?_ ?_ order
+  · intro _ _
+    exact ⟨([], none), rfl, IdxInv.init g A⟩
+  · intro vis n ih hnd hmem
+    have hnd' : vis.Nodup := (List.nodup_append.mp hnd).1
+    have hn : n ∉ vis := fun hm => (List.nodup_append.mp hnd).2.2 n hm n (by simp) rfl
+    obtain ⟨⟨I, c⟩, hrun, inv⟩ := ih hnd' (fun m hm => hmem m (List.mem_append_left _ hm))
+    obtain ⟨w, hw, rfl⟩ := mem_uids.mp (hmem n (by simp))
+    have hnp : nodeProg g A w.uid = prog g A w := by simp [nodeProg, worker?_of_mem h.nodup hw]
+    rw [allProg_snoc, idxRun_append, hrun, hnp]
+    simp only [Option.bind_some]
+    cases hT : g.isTrainer w with
+    | false =>
+      have htr : g.trained w.uid = false := by
+        cases htr : g.trained w.uid with
+        | false => rfl
+        | true =>
+          have := (h.trainedOK hw htr).stateful
+          simp [isTrainer, this, htr] at hT
+      exact idx_step_mapper h inv hw hn hT htr
+    | true =>
+      cases hP : persistentW A w with
+      | false => exact idx_step_trainer_np h inv hw hn hT hP
+      | true => exact idx_step_trainer_p h inv hw hn hT hP
 
 end
 
